@@ -37,11 +37,13 @@ def reads_field_switches(b, loc):
         c = b.switch_cond(bi)
         if not c or c['kind'] != 'bool':
             continue
-        for o in c['origin']:
-            if o[0] == 'place' and mem_loc(o[2]) == loc:
-                e = b.bool_edges(bi)
-                if e:
-                    yield (bi, e[0], e[1])
+        # the tested value IS the field: every origin of the condition is a read of it (a flag merged from the field and
+        # something else -- `match t { Last => pending, _ => self.flag }` -- is not a test of the field)
+        org = [o for o in c['origin']]
+        if org and all(o[0] == 'place' and mem_loc(o[2]) == loc for o in org):
+            e = b.bool_edges(bi)
+            if e:
+                yield (bi, e[0], e[1])
 
 
 def calls_on_field(b, callee_re, adt_suffix, field):
